@@ -95,6 +95,15 @@ def eval_call(eng, e, st):
             v_ = eng.deref(st, eng.ev1(e.args[0], st))
             want = "HttpResponse" if fn == "is_response" else "HttpRequest"
             return [(st, VBool(isinstance(v_, VRecord) and v_.cls == want))]
+        if fn == "same_enum" and fn not in st.env:
+            a_ = eng.deref(st, eng.ev1(e.args[0], st))
+            b_ = eng.deref(st, eng.ev1(e.args[1], st))
+            return [(st, VBool(eng.eq_vals(st, a_, b_)))]
+        if fn == "enum_tag" and fn not in st.env:
+            from .verify import enum_tag as _et
+            return [(st, VInt(_et(ast.literal_eval(e.args[0]))))]
+        if fn == "snapshots" and fn not in st.env:
+            return [(st, eng.ev1(e.args[0], st))]
         if fn == "dlog" and fn not in st.env:
             d_ = eng.ev1(e.args[0], st)
             cell = st.heap.get(getattr(d_, "ident", None))
